@@ -204,6 +204,21 @@ def check_las(make, label, pt):
         if got != ref:
             vio.append(V("not-equal", cname, "observably equal copy", canon.diff_tags(ref, got)))
             continue
+        # every item of the copy is found under its own session name (item access, membership)
+        for sname, sec in dup.sections.items():
+            if isinstance(sec, str):
+                continue
+            names = [i.mnemonic for i in sec]
+            if len({n.upper() for n in names}) != len(names):
+                continue   # stale duplicates (C13's subject) make the lookup ambiguous
+            for it in list(sec):
+                try:
+                    if sec[it.mnemonic] is not it or it.mnemonic not in sec:
+                        vio.append(V("copy-lookup", cname, "%s[%r] is the item" % (sname, it.mnemonic), "another item / not found"))
+                        break
+                except Exception as e:
+                    vio.append(V("copy-lookup", cname, "%s[%r] is the item" % (sname, it.mnemonic), "%s: %s" % (type(e).__name__, str(e)[:100])))
+                    break
         if full_tag(orig) != ref:
             vio.append(V("copying-changed-original", cname, "original untouched", canon.diff_tags(ref, full_tag(orig))))
         if ref_text is not None:
